@@ -109,10 +109,10 @@ extern uint64_t g_N;
 #endif
 #define V_ALIGN_OK(p) (V_LOC_OK(g_cell_obj, g_cell_off, p) && (!g_tok_on || V_LOC_OK(g_tok_obj, g_tok_off, p)))
 /* memory shape + words of one container operand, for requires clauses (evaluated left to right) */
-#define V_REQ(p) (__CPROVER_is_fresh(p, V_OBJ_BYTES) && V_WORDS_OK(p) && (V_HEAP(p) ==> __CPROVER_is_fresh(DYNP(p), V_HEAP_BYTES(p))) && \
+#define V_REQ(p) (V_FRESH(p, V_OBJ_BYTES) && V_WORDS_OK(p) && (V_HEAP(p) ==> V_FRESH(DYNP(p), V_HEAP_BYTES(p))) && \
                   V_ALIGN_OK(p) && V_CELL_OK(p) && V_TOK_OK(p) && V_BLK_OK(p))
 /* same shape, but every element has already been destroyed (state in which the base-class destructor runs) */
-#define V_REQ_DEAD(p) (__CPROVER_is_fresh(p, V_OBJ_BYTES) && V_WORDS_OK(p) && (V_HEAP(p) ==> __CPROVER_is_fresh(DYNP(p), V_HEAP_BYTES(p))) && \
+#define V_REQ_DEAD(p) (V_FRESH(p, V_OBJ_BYTES) && V_WORDS_OK(p) && (V_HEAP(p) ==> V_FRESH(DYNP(p), V_HEAP_BYTES(p))) && \
                   V_ALIGN_OK(p) && (CAT_TC || !V_OWNS_OBJ(p, g_cell_obj) || g_cell_st == ST_RAW) && !(g_tok_on && V_OWNS_OBJ(p, g_tok_obj)) && V_BLK_OK(p))
 #define V_POST(p) (V_WORDS_OK(p) && V_CELL_OK(p) && V_TOK_OK(p) && V_BLK_OK(p))
 /* cell and token agree where they coincide */
@@ -155,6 +155,10 @@ struct gsnap { uint64_t cell_obj, cell_off; int cell_st, cell_val; _Bool tok_on;
                                     (gs).cell_off < (sn).data_off + (uint64_t)(hi) * ESZ)
 
 /* ------------------------------------------------------------------------------------------------ operation-level helpers */
+/* the vector the operation works on: the object itself, or the sorted vector inside a set */
+#ifndef OPSELF
+#define OPSELF self
+#endif
 extern uint64_t g_pos, g_pos2;   /* positions designated by iterator arguments */
 extern _Bool g_alias;      /* the value argument is element g_src of the container itself */
 extern uint64_t g_src;
@@ -175,19 +179,19 @@ extern uint64_t g_src;
 /* an object outside the container that may carry the tracked cell / token */
 #define EXT_OK(v) ((g_cell_obj != OBJ(v) || (g_cell_off == OFF(v) && g_cell_st == ST_LIVE)) && (!g_tok_on || g_tok_obj != OBJ(v) || g_tok_off == OFF(v)))
 /* value argument: element g_src of the container, or a live object outside it */
-#define ARG_REQ(v) ((g_alias ==> (g_src < V_SIZE(self) && (v) == V_AT(self, g_src))) && (!g_alias ==> (__CPROVER_is_fresh(v, ESZ) && EXT_OK(v))))
+#define ARG_REQ(v) ((g_alias ==> (g_src < V_SIZE(OPSELF) && (v) == V_AT(self, g_src))) && (!g_alias ==> (V_FRESH(v, ESZ) && EXT_OK(v))))
 /* iterator argument = element index g_pos of the container */
 #define V_AT(p, i) L0_PADD(V_DATA(p), +, (i))
 #define POS_REQ(it, idx, maxidx) ((idx) <= (maxidx) && (it) == V_AT(self, idx))
 /* external source range [first, first + g_cnt) of a range operation: live elements outside the container */
 extern uint64_t g_cnt;
-#define RANGE_REQ(first, last) (g_cnt < (1UL << 16) && __CPROVER_is_fresh(first, (g_cnt ? g_cnt : 1) * ESZ) && (last) == L0_PADD(first, +, g_cnt) && \
+#define RANGE_REQ(first, last) (g_cnt < (1UL << 16) && V_FRESH(first, (g_cnt ? g_cnt : 1) * ESZ) && (last) == L0_PADD(first, +, g_cnt) && \
                                 (g_cell_obj != OBJ(first) || (GRID_OK(g_cell_off, first) && g_cell_off < OFF(first) + g_cnt * ESZ && g_cell_st == ST_LIVE)) && \
                                 (!g_tok_on || g_tok_obj != OBJ(first) || (GRID_OK(g_tok_off, first) && g_tok_off < OFF(first) + g_cnt * ESZ)))
 #define PRE_TOK_IN_RANGE(first) (pre_g.tok_on && pre_g.tok_obj == OBJ(first))
 #define PRE_TOK_RANGE_IDX(first) ((pre_g.tok_off - OFF(first)) / ESZ)
 /* slot lo + j holds the value of source element j */
-#define V_NEW_CELLS_FROM_RANGE(lo, first) (!(PRE_TOK_IN_RANGE(first) && CELL_AT(V_DATA(self), (lo) + PRE_TOK_RANGE_IDX(first))) || (g_cell_st == ST_LIVE && g_cell_val == pre_g.tokval))
+#define V_NEW_CELLS_FROM_RANGE(lo, first) (!(PRE_TOK_IN_RANGE(first) && CELL_AT(V_DATA(OPSELF), (lo) + PRE_TOK_RANGE_IDX(first))) || (g_cell_st == ST_LIVE && g_cell_val == pre_g.tokval))
 /* objects constructed minus objects destroyed during the call */
 #define V_BALANCE(delta) (CAT_TC || g_nctor + pre_g.ndtor + (uint64_t)(delta) * 0 == g_ndtor + pre_g.nctor + (uint64_t)(delta) || 0)
 #define V_LIVE_DELTA(plus, minus) (CAT_TC || g_nctor + pre_g.ndtor + (uint64_t)(minus) == g_ndtor + pre_g.nctor + (uint64_t)(plus))
@@ -196,29 +200,32 @@ extern uint64_t g_cnt;
 #define EMPLACE_ARG_REQ(a) ARG_REQ(a)
 #define EMPLACE_NEW_CELL(idx, a) V_NEW_CELLS_HAVE(idx, (idx) + 1, a)
 #elif EMPLACE_KIND == 2
-#define EMPLACE_ARG_REQ(a) (__CPROVER_is_fresh(a, ESZ) && EXT_OK(a))
-#define EMPLACE_NEW_CELL(idx, a) (!PRE_TOK_AT(a) || TOK_AT(V_DATA(self), idx))
+#define EMPLACE_ARG_REQ(a) (V_FRESH(a, ESZ) && EXT_OK(a))
+#define EMPLACE_NEW_CELL(idx, a) (!PRE_TOK_AT(a) || TOK_AT(V_DATA(OPSELF), idx))
 #else
-#define EMPLACE_ARG_REQ(a) __CPROVER_is_fresh(a, sizeof(int))
-#define EMPLACE_NEW_CELL(idx, a) (!CELL_AT(V_DATA(self), idx) || g_cell_st == ST_LIVE)
+#define EMPLACE_ARG_REQ(a) V_FRESH(a, sizeof(int))
+#define EMPLACE_NEW_CELL(idx, a) (!CELL_AT(V_DATA(OPSELF), idx) || g_cell_st == ST_LIVE)
 #endif
 #define PRE_TOK_AT(v) (pre_g.tok_on && pre_g.tok_obj == OBJ(v) && pre_g.tok_off == OFF(v))
 /* old elements [lo,hi) are now at their old index + shift */
-#define V_ELEMS_KEPT(lo, hi, shift) (!PRE_TOK_IN(pre_g, pre_self, lo, hi) || TOK_AT(V_DATA(self), PRE_TOK_IDX(pre_g, pre_self) + (shift)))
+#define V_ELEMS_KEPT(lo, hi, shift) (!PRE_TOK_IN(pre_g, pre_self, lo, hi) || TOK_AT(V_DATA(OPSELF), PRE_TOK_IDX(pre_g, pre_self) + (shift)))
 /* old elements [lo,hi) no longer exist */
 #define V_ELEMS_GONE(lo, hi) (!PRE_TOK_IN(pre_g, pre_self, lo, hi) || !g_tok_on)
 /* the slots [lo,hi) hold the value the argument had before the call */
-#define V_NEW_CELLS_HAVE(lo, hi, v) (!(PRE_TOK_AT(v) && CELL_IN(V_DATA(self), lo, hi)) || (g_cell_st == ST_LIVE && g_cell_val == pre_g.tokval))
-#define V_NEW_CELLS_INIT(lo, hi) (!CELL_IN(V_DATA(self), lo, hi) || (g_cell_st == ST_LIVE && (g_cell_val == L0_VAL_INIT || CAT_TC)))
-#define V_NO_REALLOC (V_DATA(self) == pre_self.data && V_CAPA(self) == pre_self.capa && g_nalloc == pre_g.nalloc && g_nrealloc == pre_g.nrealloc && g_ndealloc == pre_g.ndealloc)
-#define V_UNTOUCHED (V_SIZE(self) == pre_self.size && V_CAPA(self) == pre_self.capa && V_DATA(self) == pre_self.data && G_UNCHANGED(pre_g))
+#define V_NEW_CELLS_HAVE(lo, hi, v) (!(PRE_TOK_AT(v) && CELL_IN(V_DATA(OPSELF), lo, hi)) || (g_cell_st == ST_LIVE && g_cell_val == pre_g.tokval))
+#define V_NEW_CELLS_INIT(lo, hi) (!CELL_IN(V_DATA(OPSELF), lo, hi) || (g_cell_st == ST_LIVE && (g_cell_val == L0_VAL_INIT || CAT_TC)))
+#define V_NO_REALLOC (V_DATA(OPSELF) == pre_self.data && V_CAPA(OPSELF) == pre_self.capa && g_nalloc == pre_g.nalloc && g_nrealloc == pre_g.nrealloc && g_ndealloc == pre_g.ndealloc)
+#define V_UNTOUCHED (V_SIZE(OPSELF) == pre_self.size && V_CAPA(OPSELF) == pre_self.capa && V_DATA(OPSELF) == pre_self.data && G_UNCHANGED(pre_g))
 /* emplace: the element may have been built in a temporary and destroyed again before the error was raised */
-#define V_UNTOUCHED_BUT_TEMP (V_SIZE(self) == pre_self.size && V_CAPA(self) == pre_self.capa && V_DATA(self) == pre_self.data && \
+#define V_UNTOUCHED_BUT_TEMP (V_SIZE(OPSELF) == pre_self.size && V_CAPA(OPSELF) == pre_self.capa && V_DATA(OPSELF) == pre_self.data && \
     g_nalloc == pre_g.nalloc && g_ndealloc == pre_g.ndealloc && g_nrealloc == pre_g.nrealloc && g_blk_state == pre_g.blk_state && V_ELEMS_KEPT(0, pre_self.size, 0))
-#define V_STRONG (l0_exc == 0 || (V_SIZE(self) == pre_self.size && V_ELEMS_KEPT(0, pre_self.size, 0)))
+#define V_STRONG (l0_exc == 0 || (V_SIZE(OPSELF) == pre_self.size && V_ELEMS_KEPT(0, pre_self.size, 0)))
 #define V_EXC_KINDS (l0_exc == 0 || l0_exc == V_LIMIT_EXC || l0_exc == L0_EXC_BAD_ALLOC || l0_exc == L0_EXC_ELEM)
 #define V_GREW_ONCE (g_nalloc + g_nrealloc == pre_g.nalloc + pre_g.nrealloc + 1)
 
 extern struct vsnap pre_self, pre_o;
 extern struct gsnap pre_g;
+#ifdef WITH_SETS
+#include "inv_sets.h"
+#endif
 #endif
